@@ -296,7 +296,13 @@ inline lib::Payload buildByClass(const BuilderStep& s, lib::CanPayload& can, lib
             return analog;
         case rkCmStatus:
             cm.setUptime(f.cm.uptime);
-            cm.setData(f.str[0], f.str[1], f.str[2], f.str[3], f.vendor);
+            if (s.seed & 1)
+            {
+                UnterminatedViews uv(f.str);
+                cm.setData(uv.view[0], uv.view[1], uv.view[2], uv.view[3], f.vendor);
+            }
+            else
+                cm.setData(f.str[0], f.str[1], f.str[2], f.str[3], f.vendor);
             return cm;
         default:
             ifp.setInterfaceId(f.ifs.interfaceId);
